@@ -43,7 +43,104 @@ pub struct VerifUtxo {
   pub inscriptions: Option<Vec<(u32, u64)>>,
 }
 
+/// Abstract content of a UTXO entry for the storage round-trip hooks.
+pub struct VerifUtxoInput<'a> {
+  pub value: u64,
+  pub ranges: &'a [(u64, u64)],
+  pub script: &'a [u8],
+  pub inscriptions: &'a [(u32, u64)],
+}
+
 impl Index {
+  fn verif_build_entry(&self, input: &VerifUtxoInput) -> UtxoEntryBuf {
+    let mut entry = UtxoEntryBuf::new();
+    if self.index_sats {
+      let mut bytes = Vec::new();
+      for range in input.ranges {
+        bytes.extend_from_slice(&range.store());
+      }
+      entry.push_sat_ranges(&bytes, self);
+    } else {
+      entry.push_value(input.value, self);
+    }
+    if self.index_addresses {
+      entry.push_script_pubkey(input.script, self);
+    }
+    if self.index_inscriptions {
+      for (sequence_number, offset) in input.inscriptions {
+        entry.push_inscription(*sequence_number, *offset, self);
+      }
+    }
+    entry
+  }
+
+  fn verif_view(&self, entry: &UtxoEntry) -> VerifUtxo {
+    let parsed = entry.parse(self);
+    VerifUtxo {
+      value: parsed.total_value(),
+      ranges: self.index_sats.then(|| {
+        parsed
+          .sat_ranges()
+          .chunks_exact(11)
+          .map(|chunk| SatRange::load(chunk.try_into().unwrap()))
+          .collect()
+      }),
+      script: self
+        .index_addresses
+        .then(|| parsed.script_pubkey().to_vec()),
+      inscriptions: self
+        .index_inscriptions
+        .then(|| parsed.parse_inscriptions()),
+    }
+  }
+
+  /// Write an entry with this index's flags and read it back.
+  pub fn verif_utxo_roundtrip(&self, input: &VerifUtxoInput) -> VerifUtxo {
+    let entry = self.verif_build_entry(input);
+    self.verif_view(entry.as_ref())
+  }
+
+  /// Merge two entries the way the special pseudo-outputs are merged on commit.
+  pub fn verif_utxo_merged(&self, a: &VerifUtxoInput, b: &VerifUtxoInput) -> VerifUtxo {
+    let a = self.verif_build_entry(a);
+    let b = self.verif_build_entry(b);
+    let merged = UtxoEntryBuf::merged(a.as_ref(), b.as_ref(), self);
+    self.verif_view(merged.as_ref())
+  }
+
+  pub fn verif_sat_range_roundtrip(range: (u64, u64)) -> ([u8; 11], (u64, u64)) {
+    let bytes = range.store();
+    (bytes, SatRange::load(bytes))
+  }
+
+  pub fn verif_inscription_entry_roundtrip(entry: InscriptionEntry) -> InscriptionEntry {
+    InscriptionEntry::load(entry.store())
+  }
+
+  pub fn verif_rune_entry_roundtrip(entry: RuneEntry) -> RuneEntry {
+    RuneEntry::load(entry.store())
+  }
+
+  pub fn verif_outpoint_roundtrip(outpoint: OutPoint) -> OutPoint {
+    OutPoint::load(outpoint.store())
+  }
+
+  pub fn verif_satpoint_roundtrip(satpoint: SatPoint) -> SatPoint {
+    SatPoint::load(satpoint.store())
+  }
+
+  pub fn verif_header_roundtrip(header: Header) -> Header {
+    Header::load(header.store())
+  }
+
+  pub fn verif_rune_id_roundtrip(id: RuneId) -> RuneId {
+    RuneId::load(id.store())
+  }
+
+  pub fn verif_inscription_id_roundtrip(id: InscriptionId) -> InscriptionId {
+    InscriptionId::load(id.store())
+  }
+
   /// The stored entry of `outpoint`, parsed according to the index flags.
   pub fn verif_utxo(&self, outpoint: OutPoint) -> Result<Option<VerifUtxo>> {
     let rtx = self.database.begin_read()?;
